@@ -31,7 +31,7 @@ func findSolve(c *Ctx, r *R) *solveAnchors {
 	if e := fi.collectorVars(); len(e) == 1 {
 		a.ec = e[0]
 	}
-	ast.Inspect(fi.Decl.Body, func(n ast.Node) bool {
+	fi.inspect(fi.Decl.Body, func(n ast.Node) bool {
 		id, ok := n.(*ast.Ident)
 		if !ok {
 			return true
@@ -64,7 +64,7 @@ func findSolve(c *Ctx, r *R) *solveAnchors {
 		}
 	}
 	// the dfs loop: the for statement whose body contains the appends to calls
-	ast.Inspect(fi.Decl.Body, func(n ast.Node) bool {
+	fi.inspect(fi.Decl.Body, func(n ast.Node) bool {
 		if f, ok := n.(*ast.ForStmt); ok && a.loop == nil {
 			for _, call := range callsIn(f.Body) {
 				if fi.isBuiltin(call, "append") != nil && len(call.Args) > 0 && a.calls != nil && fi.varOf(call.Args[0]) == a.calls {
@@ -210,7 +210,7 @@ func init() {
 			}
 			fi := a.fi
 			n := 0
-			ast.Inspect(fi.Decl.Body, func(nd ast.Node) bool {
+			fi.inspect(fi.Decl.Body, func(nd ast.Node) bool {
 				ta, ok := nd.(*ast.TypeAssertExpr)
 				if !ok || ta.Type == nil {
 					return true
@@ -386,7 +386,7 @@ func init() {
 			sites, ctrl := 0, false
 			for _, fi := range c.all {
 				counts := map[string]int{}
-				for _, call := range callsIn(fi.Decl.Body) {
+				for _, call := range fi.callsDeep(fi.Decl.Body) {
 					f := fi.callee(call)
 					if f == nil {
 						continue
@@ -441,7 +441,7 @@ func init() {
 			gen := r.Need(c.Fn(c.W, "Generate"), "Generate")
 			if gen != nil {
 				n := 0
-				ast.Inspect(gen.Decl.Body, func(nd ast.Node) bool {
+				gen.inspect(gen.Decl.Body, func(nd ast.Node) bool {
 					as, ok := nd.(*ast.AssignStmt)
 					if !ok {
 						return true
@@ -479,7 +479,7 @@ func init() {
 					continue
 				}
 				bad := 0
-				for _, call := range callsIn(fi.Decl.Body) {
+				for _, call := range fi.callsDeep(fi.Decl.Body) {
 					if n := fi.calleeName(call); forbidden[n] {
 						bad++
 						r.Bad(name+"/"+n, call.Pos(), "%s is called in the planner: lookup is no longer by exact type identity", n)
